@@ -316,6 +316,63 @@ pub fn run(rep: &mut Report, thorough: bool) {
         );
         rep.stage("address-forms", "payloads whose reply carries an endpoint address x 10 destination addresses (printed forms of every length) x 3 destination ports x {UDP, TCP}", product(&dims), t0);
     }
+    // link-layer padding: short IPv4 frames are padded to 60 bytes on the wire, IPv6 frames never
+    // need it; the application stream is the same, so the answers are.  Each TCP payload is sent as
+    // a 4-byte first segment (padded / with a trailer) plus the rest; each datagram payload padded.
+    {
+        let t0 = std::time::Instant::now();
+        let f4 = flow4(40000, 80);
+        let f6 = flow6(40000, 80);
+        let ck = learn_cookies(&cfg, &[f4.clone(), f6.clone()]).unwrap_or_default();
+        let pad = |mut fr: Vec<u8>, always: usize| -> Vec<u8> {
+            let target = 60usize.max(fr.len() + always);
+            fr.resize(target, 0);
+            fr
+        };
+        let mut n = 0u64;
+        if let Ok(mut d) = crate::driver::Driver::spawn(&cfg) {
+            for p in &sel {
+                let mut forms: Vec<(String, String)> = Vec::new();
+                for (vn, f) in [("IPv4", &f4), ("IPv6", &f6)] {
+                    for padded in [false, true] {
+                        let c = ck.get(&key_of(f)).copied().unwrap_or(0).wrapping_add(1);
+                        let cmds: Vec<Cmd> = if p.via == Via::UdpOnly {
+                            let fr = f.udp(&p.bytes);
+                            vec![Cmd::Reset, Cmd::Frame(if padded { pad(fr, 6) } else { fr })]
+                        } else if p.bytes.len() > 4 {
+                            let a = f.tcp(1000, c, F_PSH | F_ACK, &p.bytes[..4]);
+                            let b = f.tcp(1004, c, F_PSH | F_ACK, &p.bytes[4..]);
+                            vec![Cmd::Reset, Cmd::Frame(if padded { pad(a, 6) } else { a }), Cmd::Frame(if padded { pad(b, 6) } else { b })]
+                        } else {
+                            continue;
+                        };
+                        n += cmds.len() as u64 - 1;
+                        if let Ok(o) = d.exec(&cmds) {
+                            let last = o.last().unwrap();
+                            let tcp = p.via != Via::UdpOnly;
+                            forms.push((format!("{} {}", vn, if padded { "padded" } else { "exact" }), canon_checked(p.name, &p.bytes, last.reply.as_deref(), &ctx_of(f, tcp))));
+                        }
+                    }
+                }
+                for k in 1..forms.len() {
+                    if !same(&forms[k].1, &forms[0].1) {
+                        rep.sink.violation(Violation {
+                            prop: "C19".into(),
+                            key: format!("port-or-version-dependence:link-padding:{}", p.name),
+                            what: format!("payload '{}' ({}): canonical reply {} differs from ({}) {}", p.name, forms[k].0, &forms[k].1[..forms[k].1.len().min(80)], forms[0].0, &forms[0].1[..forms[0].1.len().min(80)]),
+                            cfg: cfg.clone(),
+                            cmds: vec![],
+                            idx: n,
+                            stage: "link-padding".into(),
+                        });
+                        break;
+                    }
+                }
+            }
+        }
+        rep.sink.count("frames", n);
+        rep.stage("link-padding", "every selected payload (TCP: 4-byte first segment + rest; UDP: one datagram) x {IPv4, IPv6} x {exact frame, frame padded to 60 bytes / with a 6-byte trailer}: same canonical answer", n, t0);
+    }
     // TCP sweeps: learn cookies for all flows first (SYN sweep), then data on fresh tables
     let tcp_sel: Vec<&Payload> = sel.iter().filter(|p| p.via != Via::UdpOnly).cloned().collect();
     let tsweeps: u64 = if thorough { 4 } else { 2 };
